@@ -19,6 +19,7 @@ import (
 	"google.golang.org/grpc/codes"
 
 	"verifharness/internal/cat"
+	"verifharness/internal/faults"
 	"verifharness/internal/tok"
 	"verifharness/internal/utypes"
 	"verifharness/internal/wire"
@@ -128,8 +129,24 @@ func (env *Env) Exec(st *Step) (panicked string) {
 func (env *Env) build(st *Step) error {
 	e := env.src(st, 0)
 	x := env.src(st, 1)
-	s := tok.Str(st.S)
+	s := ""
+	if st.Op != "DecodeFault" {
+		s = tok.Str(st.S)
+	}
 	switch st.Op {
+	case "DecodeFault":
+		enc := faults.Build(st.S[0], st.A[0][0], st.A[1][0], st.A[2][0], tok.Num(st.A[3][0]), tok.Num(st.A[4][0]))
+		res, p := faults.Decode(enc)
+		if p != "" {
+			panic(p)
+		}
+		return res
+	case "DecodeFuzz":
+		res, p := faults.Decode(faults.Fuzz(st.N))
+		if p != "" {
+			panic(p)
+		}
+		return res
 	case "GoNew":
 		return goerrors.New(s)
 	case "Sentinel":
